@@ -32,7 +32,8 @@ class BetaBinomial:
     """
 
     def __init__(self, n, a, b):
-        self.n, self.a, self.b = n, a, b
+        # int(): a narrow NumPy integer n would overflow in n*a*b
+        self.n, self.a, self.b = int(n), a, b
 
     @property
     def mean(self):
